@@ -16,8 +16,8 @@ from simkit.core import H
 from simkit import ddmin
 
 VERIF = os.path.dirname(os.path.dirname(os.path.abspath(__file__)))
-REPLAYS = os.path.join(VERIF, 'replays')
-EVIDENCE = os.path.join(VERIF, 'evidence')
+REPLAYS = os.environ.get('VERIF_REPLAYS') or os.path.join(VERIF, 'replays')
+EVIDENCE = os.environ.get('VERIF_EVIDENCE') or os.path.join(VERIF, 'evidence')
 KNOWN = os.path.join(VERIF, 'known_findings.json')
 PER_RUN_WALL = int(os.environ.get('VERIF_PER_RUN_WALL', '120'))
 
@@ -47,7 +47,7 @@ def _work(args):
         s = seed_for(batch_seed, prop, i)
         faulthandler.dump_traceback_later(PER_RUN_WALL, exit=True)
         try:
-            script = mod.generate(s, tier)
+            script = mod.generate_i(s, tier, i) if hasattr(mod, 'generate_i') else mod.generate(s, tier)
             script['seed'] = s
             with env.quiet():
                 r = _execute(mod, script)
